@@ -24,7 +24,8 @@ ENUM_OP = {
     "signature_verify": enums.Operation.SIGNATURE_VERIFY, "mac": enums.Operation.MAC,
     "delete_attribute": enums.Operation.DELETE_ATTRIBUTE, "set_attribute": enums.Operation.SET_ATTRIBUTE,
     "modify_attribute": enums.Operation.MODIFY_ATTRIBUTE, "check": enums.Operation.CHECK, "rekey": enums.Operation.REKEY,
-    "get_wrapped": enums.Operation.GET,
+    "get_wrapped": enums.Operation.GET, "get_wrapped_nocp": enums.Operation.GET, "encrypt_gcm": enums.Operation.ENCRYPT,
+    "discover_versions": enums.Operation.DISCOVER_VERSIONS, "query": enums.Operation.QUERY,
 }
 MASK = [enums.CryptographicUsageMask.ENCRYPT, enums.CryptographicUsageMask.DECRYPT]
 
@@ -42,6 +43,14 @@ def name_attr(v):
 
 
 # op -> (call, success payload, check of the returned data)
+class ProxyFailure(Exception):
+    """A KMIPProxy-level operation returned a result object that reports a failure."""
+
+    def __init__(self, status, reason, message):
+        Exception.__init__(self, message)
+        self.status, self.reason, self.message = status, reason, message
+
+
 def adapters(uid, ver):
     v2 = ver >= (2, 0)
     A_ = {}
@@ -97,6 +106,39 @@ def adapters(uid, ver):
     A_["get_wrapped"] = (lambda c: c.get(uid),
                          payloads.GetResponsePayload(object_type=enums.ObjectType.SYMMETRIC_KEY, unique_identifier=uid, secret=wrapped_secret()),
                          wrapped_ok)
+    def wrapped_nocp():
+        sec = wrapped_secret()
+        kwd = sec.key_block.key_wrapping_data
+        kwd.encryption_key_information = cobj.EncryptionKeyInformation(unique_identifier="enc-" + uid)
+        kwd.mac_signature_key_information = cobj.MACSignatureKeyInformation(unique_identifier="mac-" + uid)
+        return sec
+
+    def wrapped_nocp_ok(r):
+        k = r.key_wrapping_data
+        e, m = k["encryption_key_information"], k["mac_signature_key_information"]
+        return (isinstance(r, pobj.SymmetricKey) and r.value == KEY[:24] and e["unique_identifier"] == "enc-" + uid
+                and m["unique_identifier"] == "mac-" + uid and not e.get("cryptographic_parameters") and not m.get("cryptographic_parameters")
+                and k["mac_signature"] == b"mac-" + uid.encode())
+    A_["get_wrapped_nocp"] = (lambda c: c.get(uid),
+                              payloads.GetResponsePayload(object_type=enums.ObjectType.SYMMETRIC_KEY, unique_identifier=uid, secret=wrapped_nocp()),
+                              wrapped_nocp_ok)
+
+    def proxy_result(res, ok_value):
+        if res.result_status.value != enums.ResultStatus.SUCCESS:
+            raise ProxyFailure(res.result_status.value, res.result_reason.value if res.result_reason else None,
+                               res.result_message.value if res.result_message else None)
+        return ok_value(res)
+    A_["discover_versions"] = (lambda c: proxy_result(c.proxy.discover_versions(), lambda res: [(v.major, v.minor) for v in res.protocol_versions]),
+                               payloads.DiscoverVersionsResponsePayload(protocol_versions=[contents.ProtocolVersion(1, 4), contents.ProtocolVersion(1, 0)]),
+                               lambda r: r == [(1, 4), (1, 0)])
+    A_["query"] = (lambda c: proxy_result(c.proxy.query(query_functions=[enums.QueryFunction.QUERY_OPERATIONS]), lambda res: list(res.operations)),
+                   payloads.QueryResponsePayload(operations=[enums.Operation.GET, enums.Operation.LOCATE]),
+                   lambda r: [x if isinstance(x, enums.Operation) else x.value for x in r] == [enums.Operation.GET, enums.Operation.LOCATE])
+    if ver >= (1, 4):
+        gcm = {"cryptographic_algorithm": enums.CryptographicAlgorithm.AES, "block_cipher_mode": enums.BlockCipherMode.GCM, "tag_length": 16}
+        A_["encrypt_gcm"] = (lambda c: c.encrypt(b"plain", uid=uid, cryptographic_parameters=gcm, iv_counter_nonce=b"\x00" * 12),
+                             payloads.EncryptResponsePayload(uid, b"cipher-" + uid.encode(), None, b"tag-" + uid.encode().ljust(12, b"."),),
+                             lambda r: b"tag-" + uid.encode().ljust(12, b".") in tuple(r))
     A_["get_attributes"] = (lambda c: c.get_attributes(uid, ["Name"]),
                             payloads.GetAttributesResponsePayload(unique_identifier=uid, attributes=[name_attr("nm-" + uid)]),
                             lambda r: r[0] == uid and len(r[1]) == 1 and r[1][0].attribute_value.name_value.value == "nm-" + uid)
@@ -149,12 +191,15 @@ def build_response(ver, op, resp, payload, reason, message):
     if resp == "success":
         items.append(messages.ResponseBatchItem(operation=contents.Operation(ENUM_OP[op]),
                                                 result_status=contents.ResultStatus(enums.ResultStatus.SUCCESS), response_payload=payload))
-    elif resp in ("failed", "undone", "failed_noop"):
+    elif resp in ("failed", "undone", "failed_noop", "failed_nomsg"):
         st = enums.ResultStatus.OPERATION_UNDONE if resp == "undone" else enums.ResultStatus.OPERATION_FAILED
         items.append(messages.ResponseBatchItem(operation=None if resp == "failed_noop" else contents.Operation(ENUM_OP[op]),
                                                 result_status=contents.ResultStatus(st),
                                                 result_reason=contents.ResultReason(enums.ResultReason[reason]),
-                                                result_message=contents.ResultMessage(message)))
+                                                result_message=None if resp == "failed_nomsg" else contents.ResultMessage(message)))
+    elif resp == "wrongop" and op == "query":
+        items.append(messages.ResponseBatchItem(operation=contents.Operation(enums.Operation.DESTROY), result_status=contents.ResultStatus(enums.ResultStatus.SUCCESS),
+                                                response_payload=payloads.DestroyResponsePayload(unique_identifier=cattr.UniqueIdentifier("1"))))
     elif resp == "wrongop":
         other = enums.Operation.QUERY
         items.append(messages.ResponseBatchItem(operation=contents.Operation(other), result_status=contents.ResultStatus(enums.ResultStatus.SUCCESS),
@@ -186,7 +231,7 @@ def _rows(args):
     out = []
     for k, rec in enumerate(chunk_rows):
         row = rec["row"]
-        for ver in [(1, 2), (2, 0)]:
+        for ver in [(1, 2), (1, 4), (2, 0)]:
             uid = "u%d" % (100 + (k * 7 + ver[0]) % 800)
             ad = adapters(uid, ver).get(row["op"])
             if ad is None:
@@ -220,16 +265,25 @@ def _rows(args):
                 obs["value"] = repr(r)[:120]
             except pexc.KmipOperationFailure as e:
                 obs = {"kind": "op_failure", "dataok": False, "status": e.status.name, "reason": e.reason.name, "message": e.message}
+            except ProxyFailure as e:
+                obs = {"kind": "op_failure", "dataok": False, "status": getattr(e.status, "name", str(e.status)),
+                       "reason": getattr(e.reason, "name", str(e.reason)), "message": e.message}
             except kexc.OperationFailure as e:
                 # the generic request path raises the core library's operation-failure error, which
                 # carries the same three fields
                 obs = {"kind": "op_failure", "dataok": False, "status": getattr(e.status, "name", str(e.status)),
-                       "reason": getattr(e.reason, "name", str(e.reason)), "message": str(e)}
+                       "reason": getattr(e.reason, "name", str(e.reason)), "message": e.args[0] if e.args else None}
             except Exception as e:
                 obs = {"kind": "raised", "dataok": False, "status": "", "reason": "", "message": "", "exc": "%s: %s" % (type(e).__name__, str(e)[:100])}
-            want_status = {"failed": "OPERATION_FAILED", "failed_noop": "OPERATION_FAILED", "undone": "OPERATION_UNDONE"}.get(row["resp"], "")
+            want_status = {"failed": "OPERATION_FAILED", "failed_noop": "OPERATION_FAILED", "failed_nomsg": "OPERATION_FAILED",
+                           "undone": "OPERATION_UNDONE"}.get(row["resp"], "")
+            if row["resp"] == "failed_nomsg":
+                message = ""
+            if obs.get("kind") == "op_failure" and obs.get("message") is None:
+                obs["message"] = ""            # no Result Message in the response: nothing to carry
             announced = int.from_bytes(full[4:8], "big") if len(full) >= 8 else 0
-            out.append({"row": row, "ver": ver, "obs": obs, "want": {"status": want_status, "reason": row["reason"], "message": message},
+            out.append({"row": row, "ver": ver, "outcome": rec["outcome"], "obs": obs,
+                        "want": {"status": want_status, "reason": row["reason"], "message": message},
                         "request_sent": len(sock.requests),
                         "trace": {"id": "%s/%s/%s/%s/%d%d" % (row["op"], row["resp"], row["chunk"], row["reason"], ver[0], ver[1]),
                                   "plan": {"len": min(announced, 2 ** 30), "extra": 0, "cut": len(data)}, "ev": list(sock.log),
@@ -396,8 +450,7 @@ def check(run, tier):
                 continue
             nrun += 1
             row, obs, want = o["row"], o["obs"], o["want"]
-            outcome = "raises" if row["chunk"] in ("eof_in_header", "eof_in_body") else \
-                {"success": "returns", "failed": "op_failure", "failed_noop": "op_failure", "undone": "op_failure"}.get(row["resp"], "raises")
+            outcome = o["outcome"]                 # prescribed by Client.tla (Outcome(row))
             sig = {"op": row["op"], "resp": row["resp"], "chunk": row["chunk"], "ver": o["ver"][0] * 10 + o["ver"][1]}
             run.case(common.jdump(sig) + row["reason"])
             bad = None
